@@ -3,8 +3,8 @@
 import json, os, sys
 V = os.path.dirname(os.path.dirname(os.path.abspath(__file__)))
 sys.path.insert(0, V)
-from analysis import build, canon
-adts, fns, hashes = {}, {}, {}
+from analysis import build, canon, combinators
+adts, fns, hashes, combs = {}, {}, {}, {}
 for cfg in build.thorough_configs():
     fp, _ = build.build_facts(cfg)
     raw = json.load(open(fp))
@@ -14,7 +14,9 @@ for cfg in build.thorough_configs():
         h = canon.body_hash(b_)
         if h not in hashes.setdefault(p_, []):
             hashes[p_].append(h)
+        for k_, n_ in combinators.counts(b_, p_).items():
+            combs.setdefault(p_, {})[k_] = max(n_, combs.get(p_, {}).get(k_, 0))
 out = os.path.join(V, "rules", "spec", "known_shapes.json")
 head = os.popen("git -C /repo rev-parse --short HEAD").read().strip()
-json.dump({"reference_tree": head, "adts": adts, "fns": fns, "hashes": hashes}, open(out, "w"), indent=0)
+json.dump({"reference_tree": head, "adts": adts, "fns": fns, "hashes": hashes, "combinators": combs}, open(out, "w"), indent=0)
 print(len(adts), "structs,", len(fns), "functions ->", out)
